@@ -4,6 +4,7 @@
 #include "prog.hpp"
 #include "props.hpp"
 #include <thread>
+extern "C" void alw_reset(void) __attribute__((weak));
 
 using namespace prog;
 
@@ -104,13 +105,14 @@ void prop_c06(hz::Ctx &ctx) {
   {
     hz::Rng r(ctx.seed ^ 0x60b); int nlong = ctx.thorough() ? 400 : 48;
     for (int t = 0; t < nlong; t++) {
-      int combo = (int)r.below(12); int nlines = 800 + (int)r.below(4000); int ncalls = 1 + (int)r.below(4); uint64_t ls = r.next();
+      int combo = (int)r.below(12); int nlines = 800 + (int)r.below(4000); int ncalls = 1 + (int)r.below(4); uint64_t ls = r.next(); int sep = (int)(ls % 3); const char *NL = sep == 1 ? "\r\n" : sep == 2 ? "\r" : "\n";
       if (!ctx.take()) continue;
       std::string id = "C06L|" + std::to_string(combo) + "|" + std::to_string(nlines) + "|" + std::to_string(ncalls) + "|" + std::to_string(ls) + "|" + std::to_string(ctx.seed);
       if (!ctx.begin(id, "long program on the library-managed buffer")) continue;
       ctx.cls("part:long-internal"); ctx.nontrivial(id);
       HV v; hz::Rng lr(ls); std::vector<uint8_t> want; std::vector<std::string> calls(ncalls);
-      for (int i = 0; i < nlines; i++) { const std::string &l = P.lines[lr.below(P.lines.size())]; auto b = solo(l, combo); want.insert(want.end(), b.begin(), b.end()); calls[(size_t)i * ncalls / nlines] += l + "\n"; }
+      for (int i = 0; i < nlines; i++) { const std::string &l = P.lines[lr.below(P.lines.size())]; auto b = solo(l, combo); want.insert(want.end(), b.begin(), b.end()); calls[(size_t)i * ncalls / nlines] += l + NL; }
+      ctx.cls(sep == 0 ? "newline:lf" : sep == 1 ? "newline:crlf" : "newline:cr");
       assemblyline_t a = asm_create_instance(nullptr, 0); al::apply_opts(a, combo_opts(combo)); int rc = 0; for (auto &cl : calls) if (!cl.empty() && (rc = asm_assemble_str(a, cl.c_str())) != 0) break;
       int off = asm_get_offset(a);
       if (rc != 0) { v.ok = false; v.symptom = "rejected"; v.detail = "a call failed on the library-managed buffer"; }
@@ -332,6 +334,20 @@ void prop_c14(hz::Ctx &ctx) {
       if (!v.ok) { hz::Failure f = failck(k, v); f.caseid = serck(k); f.text = std::to_string(nl) + " lines, library-managed buffer [chunk " + std::to_string(k.c) + "]"; ctx.fail(f); }
     }
   }
+  // growth of the library-managed buffer in the middle of counting: one-byte nops up to a few bytes before a growth threshold, then two long
+  // instructions (the first ends just behind the threshold, the second starts inside the last 20 bytes), then a short tail
+  {
+    std::vector<std::string> longs; for (auto it = P.bylen.rbegin(); it != P.bylen.rend() && longs.size() < 6; ++it) if (it->first >= 9) longs.push_back(P.lines[it->second[ctx.seed % it->second.size()]]);
+    for (int q = 1; q <= 2; q++) for (int d = 0; d <= 26; d += (ctx.thorough() ? 1 : 2)) for (size_t a = 0; a < longs.size(); a++) for (int c : {100000, 6100, 17}) {
+      if (!ctx.take()) continue;
+      ChunkCase k; k.counting = true; k.internal = true; k.c = c; k.combo = DEFAULT_COMBO; k.start = 0; k.calls = 1 + (int)((d + a) % 2); k.lines.assign((size_t)(6000 * q - d + (int)(ctx.seed % 2)), "nop"); k.lines.push_back(longs[a]); k.lines.push_back(longs[(a + 1 + d) % longs.size()]); k.lines.push_back("nop"); k.lines.push_back(longs[(a + 2) % longs.size()]);
+      std::string id = "C14G|" + std::to_string(q) + "|" + std::to_string(d) + "|" + std::to_string(a) + "|" + std::to_string(c) + "|" + std::to_string(ctx.seed); if (!ctx.begin(id, "nops up to a growth threshold, long instructions across it, counting with chunk " + std::to_string(c))) continue;
+      int want = 0; HV v = check14(k, &want);
+      ctx.cls("part:growth-threshold"); ctx.nontrivial(id);
+      if (ctx.want_sample()) ctx.put_sample(std::to_string(k.lines.size() - 4) + " nops, then \"" + longs[a] + "\" ... on the library-managed buffer, chunk " + std::to_string(c) + " -> " + (v.ok ? "count " + std::to_string(want) : v.symptom));
+      if (!v.ok) { hz::Failure f = failck(k, v); f.caseid = id; f.text = std::to_string(k.lines.size() - 4) + " nops then long instructions across the growth threshold, library-managed buffer [chunk " + std::to_string(c) + "]"; ctx.fail(f); }
+    }
+  }
   // programs that emit nothing (empty, comments, labels, directives, blank lines) at every offset of small caller buffers: the
   // counting call reports 0 and otherwise does what the plain call does
   {
@@ -383,7 +399,7 @@ static void real_apply(assemblyline_t a, int setter, int v) {
   switch (setter) { case 0: asm_mov_imm(a, o); break; case 1: asm_sib_index_base_swap(a, o); break; case 2: asm_sib_no_base(a, o); break; case 3: asm_sib(a, o); break; case 4: asm_set_all(a, o); break; }
 }
 static const char *SETTER[] = {"asm_mov_imm", "asm_sib_index_base_swap", "asm_sib_no_base", "asm_sib", "asm_set_all", "assemble_str", "asm_assemble_str", "asm_assemble_string_counting_chunks"};
-static std::string valname(int v) { return v == 0 ? "STRICT" : v == 1 ? "NASM" : v == 2 ? "SMART" : std::to_string(v); }
+static std::string valname(int v) { return v == 0 ? "STRICT" : v == 1 ? "NASM" : v == 2 ? "SMART" : v == -2 ? "(two probes of this dimension disagree)" : v == -3 ? "(the probe lines assembled in one call differ from the same lines one by one)" : std::to_string(v); }
 struct Obs { int mov = -1, swap = -1, nobase = -1; std::string err; };
 // observe the effective options of an instance through probe lines (classified with the decoder)
 static Obs observe(assemblyline_t a, uint8_t *buf, bool alias = false) {
@@ -398,6 +414,14 @@ static Obs observe(assemblyline_t a, uint8_t *buf, bool alias = false) {
     // the option is one switch for every shape it governs: [1*reg] follows [2*reg], [r12d+esp+8] follows [rax+rsp]
     if ((n2.ops[1].mem.base >= 0 ? 1 : 0) != o.nobase) o.nobase = -2;
     if ((s2.ops[0].mem.index >= 0 ? 1 : 0) != o.swap) o.swap = -2;
+    // the options hold for every line of a call: the probes assembled together (in two orders) give the concatenation of what they give one by one
+    static const char *PL[] = {"mov rax, 0x7fffffff", "mov rax, 0x000000007fffffff", "lea r15, [rax+rsp]", "lea r15, [2*rax]", "lea r15, [1*rcx]", "add dword [r12d+esp+8], 1"};
+    for (int order = 0; order < 2 && o.err.empty(); order++) {
+      std::vector<uint8_t> want; std::string all; for (int q = 0; q < 6; q++) { int k = order ? (q * 5 + 1) % 6 : q; asm_set_offset(a, 0); if (asm_assemble_str(a, PL[k]) != 0) { o.err = "probe failed"; break; } want.insert(want.end(), buf, buf + asm_get_offset(a)); all += std::string(PL[k]) + "\n"; }
+      if (!o.err.empty()) break;
+      asm_set_offset(a, 0); int rc = alias ? assemble_str(a, all.c_str()) : asm_assemble_str(a, all.c_str());
+      if (rc != 0 || asm_get_offset(a) != (int)want.size() || memcmp(buf, want.data(), want.size())) { o.mov = -3; break; }   // reported as an option mismatch
+    }
   }
   asm_set_offset(a, saved);
   return o;
@@ -485,6 +509,7 @@ static std::string text15(const Pool &P, const HCmd &h) {
     case 4: return "asm_assemble_str(<program #" + std::to_string(h.a) + " with a bad line>)";
     case 5: snprintf(b, sizeof b, "asm_assemble_string_counting_chunks(<program #%d%s>, %d)", h.a, (h.a % 3) == 0 ? " with a bad line" : "", (int)CHUNKS15[h.c % NCH15]); return b;
     case 10: return "asm_assemble_str(<long program #" + std::to_string(h.a) + ">)";
+    case 11: return "asm_assemble_str(<long program #" + std::to_string(h.a) + ">) with growth number " + std::to_string(1 + h.b % 2) + " refused";
     case 6: return "create bystander"; case 7: return "destroy bystander"; case 8: return "bystander assembles"; case 9: return std::string("bystander ") + SETTER[h.a % 5] + "(" + valname(h.b) + ")";
   }
   (void)P; return "?";
@@ -494,7 +519,9 @@ static std::string text15(const Pool &P, const C15Case &c) { std::string s; for 
 struct CallOut { int rc = 0, off = 0, cnt = 0; };
 static CallOut do_call(assemblyline_t a, const Pool &P, const HCmd &h) {
   CallOut o;
-  if (h.kind == 10) { std::string p = long_program_for(P, h.a); o.rc = asm_assemble_str(a, p.c_str()); }
+  if (h.kind == 11) { // a long program whose first growth of the library-managed buffer the operating system refuses (fault layer): the call fails, the instance lives on
+    std::string p = long_program_for(P, h.a); if (&alw != nullptr) { alw_reset(); alw.fail_at = 1 + h.b % 2; alw.armed = 1; } o.rc = asm_assemble_str(a, p.c_str()); if (&alw != nullptr) { alw.armed = 0; alw.fail_at = 0; } }
+  else if (h.kind == 10) { std::string p = long_program_for(P, h.a); o.rc = asm_assemble_str(a, p.c_str()); }
   else if (h.kind == 3 || h.kind == 4) { std::string p = program_for(P, h.a, h.b, h.kind == 4 ? h.c : -1); o.rc = (h.a % 4 == 2) ? assemble_str(a, p.c_str()) : asm_assemble_str(a, p.c_str()); }
   else { std::string p = program_for(P, h.a, h.b, (h.a % 3) == 0 ? h.a : -1); std::vector<char> w(p.begin(), p.end()); w.push_back(0); o.rc = asm_assemble_string_counting_chunks(a, w.data(), (int)CHUNKS15[h.c % NCH15], &o.cnt); }
   o.off = asm_get_offset(a); return o;
@@ -514,7 +541,7 @@ static HV check15(const Pool &P, const C15Case &c) {
       case 0: real_apply(a, h.a % 5, h.b); model_apply(mopt, h.a % 5, h.b); break;
       case 1: asm_set_chunk_size(a, CHUNKS15[h.a % NCH15]); last_chunk = CHUNKS15[h.a % NCH15]; break;
       case 2: asm_set_offset(a, h.a % std::min(4096, N + 1)); explicit_off = h.a % std::min(4096, N + 1); after_failure = false; break;
-      case 3: case 4: case 5: case 10: {
+      case 3: case 4: case 5: case 10: case 11: {
         int start = asm_get_offset(a);
         if (after_failure) { asm_set_offset(a, explicit_off); start = explicit_off; } // the offset after a failed call is unspecified: set it explicitly (C15's premise); C07 covers the unset case
         if (start < 0 || (!internal && start > std::min(8000, N))) { asm_set_offset(a, 0); start = 0; }
@@ -553,7 +580,7 @@ static hz::Failure fail15(const Pool &P, const C15Case &c, const HV &v) { hz::Fa
 static rc::Gen<HCmd> gen_hcmd(bool final_only) {
   static const int V[] = {0, 1, 2, 7};
   if (final_only) return rc::gen::apply([](int k, int a, int b, int c) { return HCmd{k == 0 ? 3 : k == 1 ? 4 : k == 2 ? 5 : 10, a, b, c}; }, range(0, 4), range(0, 1000), range(0, 12), range(0, 10));
-  return rc::gen::apply([](int k, int a, int b, int c) { HCmd h{k, a, b, c}; if (k == 0 || k == 9) h.b = V[b & 3]; return h; }, range(0, 11), range(0, 5000), range(0, 12), range(0, 10));
+  return rc::gen::apply([](int k, int a, int b, int c) { HCmd h{k, a, b, c}; if (k == 0 || k == 9) h.b = V[b & 3]; return h; }, range(0, 12), range(0, 5000), range(0, 12), range(0, 10));
 }
 void showValue(const HCmd &h, std::ostream &os) { os << "{" << h.kind << "," << h.a << "," << h.b << "," << h.c << "}"; }
 
@@ -562,7 +589,7 @@ void prop_c15(hz::Ctx &ctx) {
   auto run = [&](const C15Case &c, const std::string &part, bool viarc) {
     std::string id = ser15(c); if (!ctx.begin(id, text15(P, c).substr(0, 400))) return;
     ctx.cls(part);
-    bool nt = false; for (auto &h : c.hist) if (h.kind == 4 || h.kind == 5 || h.kind == 6 || h.kind == 7) nt = true; if (nt) ctx.nontrivial(id); if (c.n < 0) ctx.cls("buffer:library-managed"); else if (c.n < 16384) ctx.cls("buffer:small"); for (auto &h : c.hist) if (h.kind == 10) { ctx.cls("hist:long-program"); break; }
+    bool nt = false; for (auto &h : c.hist) if (h.kind == 4 || h.kind == 5 || h.kind == 6 || h.kind == 7) nt = true; if (nt) ctx.nontrivial(id); if (c.n < 0) ctx.cls("buffer:library-managed"); else if (c.n < 16384) ctx.cls("buffer:small"); for (auto &h : c.hist) if (h.kind == 10) { ctx.cls("hist:long-program"); break; } for (auto &h : c.hist) if (h.kind == 11 && c.n < 0) { ctx.cls("hist:refused-growth"); break; }
     for (auto &h : c.hist) { if (h.kind == 4) { ctx.cls("hist:failing-call"); break; } } for (auto &h : c.hist) { if (h.kind == 5) { ctx.cls("hist:counting"); break; } } for (auto &h : c.hist) { if (h.kind == 6) { ctx.cls("hist:bystander"); break; } }
     HV v = check15(P, c);
     if (ctx.want_sample()) ctx.put_sample(text15(P, c).substr(0, 300) + " -> " + (v.ok ? "same as on a fresh instance" : v.detail));
@@ -572,7 +599,7 @@ void prop_c15(hz::Ctx &ctx) {
   std::vector<HCmd> finals = {{3, 22, 3, 0}, {4, 22, 3, 1}, {5, 23, 3, 5}};
   // library-managed buffers: chunk sizes beyond the initial length, a history that grows the buffer or not, offsets just below the boundary, final programs that cross it
   for (int ch : {8, 9}) for (int grown = 0; grown < 3; grown++) for (int kk : {5990, 5999, 6000, 5900, 0, 6021, 12300, 20000}) for (int fin = 0; fin < 3; fin++) for (int var = 0; var < (ctx.thorough() ? 6 : 2); var++) {
-    if (!ctx.take()) continue; C15Case c; c.n = -1; c.poolseed = ctx.seed; c.k = kk; if (grown) c.hist.push_back({10, 77 + var + grown, 0, 0}); if (grown == 2) c.hist.push_back({4, 5 + var, 2, 1}); c.hist.push_back({1, ch, 0, 0});
+    if (!ctx.take()) continue; C15Case c; c.n = -1; c.poolseed = ctx.seed; c.k = kk; if (grown) c.hist.push_back({(kk + fin + var) % 3 == 0 ? 11 : 10, 77 + var + grown, var, 0}); if (grown == 2) c.hist.push_back({4, 5 + var, 2, 1}); c.hist.push_back({1, ch, 0, 0});
     c.final = fin == 0 ? HCmd{10, 31 + var, 0, 0} : fin == 1 ? HCmd{3, 40 + var, 11, 0} : HCmd{5, 50 + var, 11, ch};
     run(c, "part:library-managed-buffer", false);
   }
@@ -592,7 +619,8 @@ int replay_hist(const std::string &prop, const std::string &caseid, uint64_t see
   if (caseid.compare(0, 5, "C06L|") == 0) {
     auto f = split(caseid, '|'); if (f.size() != 6) return 2; int combo = atoi(f[1].c_str()), nlines = atoi(f[2].c_str()), ncalls = atoi(f[3].c_str()); uint64_t ls = strtoull(f[4].c_str(), nullptr, 10); ctx.seed = strtoull(f[5].c_str(), nullptr, 10);
     const Pool &P = pool(ctx); hz::Rng lr(ls); std::vector<uint8_t> want; std::vector<std::string> calls(ncalls);
-    for (int i = 0; i < nlines; i++) { const std::string &l = P.lines[lr.below(P.lines.size())]; auto b = solo(l, combo); want.insert(want.end(), b.begin(), b.end()); calls[(size_t)i * ncalls / nlines] += l + "\n"; }
+    int sep = (int)(ls % 3); const char *NL = sep == 1 ? "\r\n" : sep == 2 ? "\r" : "\n";
+    for (int i = 0; i < nlines; i++) { const std::string &l = P.lines[lr.below(P.lines.size())]; auto b = solo(l, combo); want.insert(want.end(), b.begin(), b.end()); calls[(size_t)i * ncalls / nlines] += l + NL; }
     assemblyline_t a = asm_create_instance(nullptr, 0); al::apply_opts(a, combo_opts(combo)); int rc = 0; for (auto &cl : calls) if (!cl.empty() && (rc = asm_assemble_str(a, cl.c_str())) != 0) break;
     bool ok = rc == 0 && asm_get_offset(a) == (int)want.size() && !memcmp(asm_get_code(a), want.data(), want.size()); asm_destroy_instance(a);
     printf("%d lines in %d calls on the library-managed buffer: %s\n", nlines, ncalls, ok ? "OK" : "FAIL"); return ok ? 0 : 1;
@@ -603,6 +631,10 @@ int replay_hist(const std::string &prop, const std::string &caseid, uint64_t see
     for (auto &k : ks) check13(k); std::vector<std::string> bad(4); std::vector<std::thread> th;
     for (int t = 0; t < 4; t++) th.emplace_back([&, t]() { for (int rep = 0; rep < 30 && bad[t].empty(); rep++) for (size_t i = 0; i < ks.size(); i++) { HV v = check13(ks[(i + t * 11) % ks.size()]); if (!v.ok) { bad[t] = v.symptom + " : " + v.detail; break; } } });
     for (auto &x : th) x.join(); for (auto &b : bad) if (!b.empty()) { printf("FAIL %s\n", b.c_str()); return 1; } printf("OK\n"); return 0; }
+  if (caseid.compare(0, 5, "C14G|") == 0) { auto f = split(caseid, '|'); if (f.size() != 6) return 2; int q = atoi(f[1].c_str()), d = atoi(f[2].c_str()); size_t a = (size_t)atoi(f[3].c_str()); int c = atoi(f[4].c_str()); ctx.seed = strtoull(f[5].c_str(), nullptr, 10); const Pool &P = pool(ctx);
+    std::vector<std::string> longs; for (auto it = P.bylen.rbegin(); it != P.bylen.rend() && longs.size() < 6; ++it) if (it->first >= 9) longs.push_back(P.lines[it->second[ctx.seed % it->second.size()]]);
+    ChunkCase k; k.counting = true; k.internal = true; k.c = c; k.combo = DEFAULT_COMBO; k.start = 0; k.calls = 1 + (int)((d + a) % 2); k.lines.assign((size_t)(6000 * q - d + (int)(ctx.seed % 2)), "nop"); k.lines.push_back(longs[a % longs.size()]); k.lines.push_back(longs[(a + 1 + d) % longs.size()]); k.lines.push_back("nop"); k.lines.push_back(longs[(a + 2) % longs.size()]);
+    HV v = check14(k); if (v.ok) { printf("OK\n"); return 0; } printf("FAIL %s : %s\n", v.symptom.c_str(), v.detail.c_str()); return 1; }
   if (caseid.compare(0, 5, "C14E|") == 0) { auto f = split(caseid, '|'); if (f.size() != 5) return 2; static const char *EMPTY[] = {"", "; only a comment\n", "lbl:\n", "\n\n", "section .text\n; x\n\tglobal f\n", "   ", "; no newline"};
     int n = atoi(f[1].c_str()), start = atoi(f[2].c_str()), e = atoi(f[3].c_str()), c = atoi(f[4].c_str()); std::vector<uint8_t> b1(n + 1, 0xcc), b2(n + 1, 0xcc); assemblyline_t a1 = asm_create_instance(b1.data(), n), a2 = asm_create_instance(b2.data(), n); asm_set_offset(a1, start); asm_set_offset(a2, start);
     std::string t = EMPTY[e % 7]; std::vector<char> w(t.begin(), t.end()); w.push_back(0); int cnt = -7; int r1 = asm_assemble_string_counting_chunks(a1, w.data(), c, &cnt), r2 = asm_assemble_str(a2, t.c_str()); int o1 = asm_get_offset(a1), o2 = asm_get_offset(a2); asm_destroy_instance(a1); asm_destroy_instance(a2);
